@@ -299,6 +299,41 @@ def check(ctx):
                                       "not accepted where %s is declared" % tn, "accepted", "FunctionSignature.matches")
                     ctx.count("narrow:%s%s@%d:%s" % (name, h.sig, i, type(bad).__name__), bucket="narrowing")
 
+    # ---- an UNKNOWN keyword on every function that can be called by name, as text: for each signature whose positional call is
+    # accepted, the same call with `nosuchkw_: 1` appended is rejected and no body of that name runs (also for functions the
+    # evaluator treats specially: whatever route a call takes, its keywords reach the resolution)
+    import re as _re2
+    TXT2 = {"Number": "1", "Integral": "2", "Rational": "1/2", "Real": "2.5", "String": '"a"', "Array": "{1, 2}", "Bool": "1", "Quantity": "1 m",
+            "Interval": "[1, 2]", "Instant": "#2020-01-01#", "Any": "1", "RandomVariable": "Binomial(3, 0.5)", "Event": "(Binomial(3, 0.5) < 2)",
+            "Combinatoric": "3!", "Plot": "line({1, 2}, {1, 2})"}
+    for name in names:
+        if not _re2.match(r"^[A-Za-z_][A-Za-z_0-9]*$", name) or name in ("quit", "exit", "plot", "seed"):
+            continue
+        for h in F.FUNCTIONS[name]:
+            pos = [TXT2.get(R.types.get_type_as_string(t), "1") for t in h.sig.args]
+            if getattr(h.sig, "vararg", None) is not None or getattr(h.sig, "var_arg", None) is not None:
+                pos = pos + ["1"]
+            plain = "%s(%s)" % (name, ", ".join(pos))
+            if "nosuchkw_" in (h.sig.kw_args or {}):
+                continue
+            k0_, _v0 = R.value(plain)
+            if k0_ != "ok":
+                continue
+            text = "%s(%s)" % (name, ", ".join(pos + ["nosuchkw_: 1"]))
+            called = []
+            saved = [(hh, hh.f) for hh in F.FUNCTIONS[name]]
+            for hh, f in saved:
+                hh.f = (lambda *a, **kw: called.append(1) or 0)
+            try:
+                k_, v_ = R.value(text)
+            finally:
+                for hh, f in saved:
+                    hh.f = f
+            ctx.count("kwtext-unknown:" + text, bucket="kw-text-unknown:" + ("accepted" if k_ == "ok" else "rejected"))
+            if k_ == "ok" or called:
+                ctx.violation("dispatch-kw-text:" + text, text, "rejected (unknown keyword) before any body runs",
+                              "%s body_ran=%s" % (k_ if k_ == "ok" else "err " + str(v_), bool(called)), "execute(%r)" % text)
+
     # ---- no narrowing, as text: a float that is NEARLY whole (the result of a computation, displayed as a whole number at six
     # digits) is still not an integer where an integer is required.  The values are computed here with Python's own floats.
     near_whole = [("sqrt(2)^2", math.sqrt(2) ** 2), ("49*float(1/49)", 49 * (1 / 49)), ("tan(pi/4)", math.tan(math.pi / 4)), ("0.1*30", 0.1 * 30),
